@@ -8,7 +8,7 @@ SPEC = {
                   "compared with a fresh cache loaded from the same identity state; the registry is compared with the identity ledger.",
     "level_note": "generator biased to delegation/kill/online batches inside one identity-update block (ranges 5/7/6 blocks)",
     "rule": "case = one block boundary; distinct_nontrivial = distinct identity diffs that contain a pool/delegation/discrimination change",
-    "jobs": [Job("chain", "verifsim", "^TestVerifC10$", shards=(8, 16), timeout=(900, 3600))],
+    "jobs": [Job("chain", "verifsim", "^TestVerifC10$", shards=(8, 16), timeout=(900, 7200))],
     "floors": {"diff_event:delegated": 20, "diff_event:discriminated": 5, "diff_event:removed": 20, "diff_event:online": 20,
                "diff_event:offline": 20, "restarts": 10, "rollbacks": 10, "validator_view_checks": 3000,
                "pool_story_pools_with_non_validated_owner": 15, "pool_story_non_validated_owner_online": 12, "included:story:online-non-validated-pool-owner-kills-itself": 6, "included:story:online-pool-kills-its-members": 6},
